@@ -399,6 +399,19 @@ def gen_groups(rng):
             ups = [u['n'] for u in tops[:idx] if u['k'] in ('S', 'H', 'P', 'B') and u['n'] not in x['up']]
             if ups:
                 keep.append([rng.choice(TIMES), rng.choice(PRIOS), 'rewire_add', x['n'], rng.choice(ups)])
+    tops_gp = [d for d in spec['devs'] if d['k'] == 'GP']
+    if tops_gp and rng.random() < 0.15:
+        # a side line of its own (fast source, slow handler, sink) whose source becomes, in the middle of the run, a
+        # further upstream of an EXISTING group path: it was never upstream of that group, is refused while the group's
+        # input is busy and from then on depends on the group's space notification (seed C03-20)
+        x = rng.choice(tops_gp)
+        spec['devs'].append({'k': 'S', 'n': 'SR', 'c': rng.choice([0, 0.25, 0.5]), 'budget': INF if rng.random() < 0.7 else 6,
+                             'batch': None, 'val': 0})
+        if spec['devs'][-1]['c'] == 0:
+            spec['devs'][-1]['budget'] = 6          # W: an unlimited source needs a positive cycle time
+        spec['devs'].append({'k': 'H', 'n': 'HR', 'c': rng.choice([3, 4.5, 6, 8]), 'up': ['SR']})
+        spec['devs'].append({'k': 'K', 'n': 'KR', 'c': rng.choice([0, 1, 2]), 'up': ['HR']})
+        keep.append([rng.choice([2, 3, 4.5, 6, 7]), rng.choice(PRIOS), 'rewire_add', x['n'], 'SR'])
     spec['actions'] = keep
     spec['profile'] = 'groups'
     spec.pop('between', None)
